@@ -224,6 +224,18 @@ let handle (toks : String.t list) : String.t =
     (match s_dec_message trees.(Array.length trees - 1) with
      | Err e -> "err " ^ err_name e
      | Ok ((info, init), body) -> Printf.sprintf "ok %s %s %s" (show_info info) (show_init init) (cell_text body))
+  | "vm_ser" :: rest ->
+    let (ns, vals) = parse_dag rest in
+    let trees = tree_of_dag ns in
+    let (vs, _) = parse_vals trees vals false in
+    (match ser_stack (nat_of_int 200) vs with Err e -> "err " ^ err_name e | Ok c -> "ok " ^ cell_text c)
+  | "vm_dec" :: rest ->
+    let (ns, _) = parse_dag rest in
+    let trees = tree_of_dag ns in
+    let Cell (_, bits, refs) = trees.(Array.length trees - 1) in
+    (match dec_stack (nat_of_int 200) { s_bits = bits; s_refs = refs } with
+     | Err e -> "err " ^ err_name e
+     | Ok vs -> "ok " ^ String.concat " " (List.map show_vm vs))
   | "senc" :: rest ->
     let (ns, ops) = parse_dag rest in
     let trees = tree_of_dag ns in
